@@ -705,6 +705,15 @@ class CompGen:
         self.add_atoms_for(p, t, key is None, None)   # child in-ports are not connect sources
       else:
         rest.append((p, t, key))
+    # delay-line idiom: a whole register list written by ONE block, element 0 by constant index and the
+    # rest through the loop variable (the same list written through a narrower and a broader name)
+    delay_lines = []
+    for sg in self.signals:
+      if sg["kind"] in ("out", "wire") and sg["dims"] and sg["dims"][0] >= 2 and isinstance(sg["type"], int):
+        elems = [r_ for r_ in regs if len(r_[0]) == 2 and r_[0][0] == ["a", sg["name"]]]
+        if len(elems) == sg["dims"][0] and c.random() < 0.5:
+          regs = [r_ for r_ in regs if not any(r_ is e_ for e_ in elems)]
+          delay_lines.append(sg)
     # child outputs become readable once all non-register in-port pieces of the child are driven
     pieces = []
     for (p, t, key) in rest:
@@ -826,6 +835,20 @@ class CompGen:
     c.shuffle(regs)
     j = 0
     nff = 0
+    for sg in delay_lines:
+      n, t, nm = sg["dims"][0], sg["type"], sg["name"]
+      e = self.value_expr(t, 2, {"tmps": {}})
+      if e is None:
+        e = self.const(t)
+      head = ["assign", [["a", nm], ["i", 0]], e]
+      loop = ["for", "i", 1, n, 1, [["assign", [["a", nm], ["vi", ["lv", "i"]]],
+                                     ["rd", [["a", nm], ["vi", ["bin", "sub", ["lv", "i"], ["int", 1]]]], t]]]]
+      stmts = [head, loop] if c.random() < 0.6 else [loop, head]
+      if c.random() < P["p_reset_in_ff"]:
+        stmts = [["if", ["rd", [["a", "reset"]], 1],
+                  [["for", "i", 0, n, 1, [["assign", [["a", nm], ["vi", ["lv", "i"]]], ["int", 0]]]]], stmts]]
+      self.items.append({"k": "ff", "name": "ffd%d" % nff, "stmts": stmts})
+      nff += 1
     while j < len(regs):
       k = c.randint(1, 3)
       group = regs[j:j + k]
